@@ -65,7 +65,11 @@ class Builder(object):
     # number of primitive stages each named operator expands to in the model
     WIDTH = {'mean': 2, 'variance': 2, 'stddev': 3, 'fvariance': 2, 'fstddev': 3, 'duc': 3}
 
-    def __init__(self, log=None, dead=None, mux=True):
+    def __init__(self, log=None, dead=None, mux=True, share=False):
+        # share: stages with the same term are built ONCE and the same operator object is applied at every place
+        # where the term occurs (an operator object is a value: using it twice must equal using two equal ones)
+        self.share = share
+        self.cache = {}
         self.log = log
         self.dead = dead        # list receiving dead letters of error routers
         self.mux = mux
@@ -86,6 +90,15 @@ class Builder(object):
         return ops
 
     def stage(self, st, here):
+        if self.share and st[0] not in ('group_by', 'roll', 'split', 'time_split', 'tee', 'route'):
+            import json
+            k = json.dumps(st)
+            if k not in self.cache:
+                self.cache[k] = self.stage_(st, here)
+            return self.cache[k]
+        return self.stage_(st, here)
+
+    def stage_(self, st, here):
         n = st[0]
         if n == 'map':
             return [rs.ops.map(fn1(st[1]))]
@@ -182,10 +195,13 @@ class Builder(object):
                 from datetime import datetime, timedelta, timezone
                 base = datetime(2020, 1, 1, tzinfo=timezone.utc)
                 tf = fn1(cfg['time'])
+                # 'ms': one model time unit is 100 ms (timestamps and timeouts with sub-second parts; datetime/timedelta
+                # arithmetic is exact in microseconds, so the decisions are those of the integer timeline)
+                unit = 0.1 if cfg['datetime'] == 'ms' else 1
                 return [rs.data.time_split(
-                    time_mapper=lambda i: base + timedelta(seconds=tf(i)),
-                    active_timeout=timedelta(seconds=cfg['active']) if cfg.get('active') is not None else None,
-                    inactive_timeout=timedelta(seconds=cfg['inactive']) if cfg.get('inactive') is not None else None,
+                    time_mapper=lambda i: base + timedelta(milliseconds=1000 * unit * tf(i)),
+                    active_timeout=timedelta(milliseconds=1000 * unit * cfg['active']) if cfg.get('active') is not None else None,
+                    inactive_timeout=timedelta(milliseconds=1000 * unit * cfg['inactive']) if cfg.get('inactive') is not None else None,
                     closing_mapper=closing, include_closing_item=cfg.get('include', True),
                     pipeline=inner or [rs.ops.identity()])]
             return [rs.data.time_split(
@@ -239,14 +255,14 @@ def run_prelude(obs, source, prelude):
             pass
 
 
-def run_mux(term, items, bounds=False, prelude=None):
+def run_mux(term, items, bounds=False, prelude=None, share=False):
     """Real run of `with_memory_store(pipeline)` on a plain source driven item by item.
     Returns chunks [subscription, item 0.., completion] of outputs as the model encodes them,
     boundary logs, dead letters.  With `prelude`, the same observable object has been subscribed once
     before (and that subscription completed / failed / was disposed)."""
     log = {} if bounds else None
     dead = []
-    b = Builder(log=log, dead=dead)
+    b = Builder(log=log, dead=dead, share=share)
     ops = b.pipe(term)
     if prelude is not None:
         rsrc = ResubSource()
@@ -310,10 +326,10 @@ def run_mux(term, items, bounds=False, prelude=None):
     return {'chunks': chunks, 'bounds': log, 'dead': dead, 'raised': raised}
 
 
-def run_plain(term, items, prelude=None):
+def run_plain(term, items, prelude=None, share=False):
     """Real run of the same operators on an ordinary observable, item by item (with `prelude`: after an earlier
     subscription of the same observable object)"""
-    b = Builder(mux=False)
+    b = Builder(mux=False, share=share)
     ops = b.pipe(term)
     if prelude is not None:
         rsrc = ResubSource()
